@@ -122,7 +122,7 @@ func verifRepoBytes(n int) []byte {
 // words above.
 func verifRepo(nkw int) string {
 	kw := func() string { return verifRepoKeywords[verif.Choice("repo_keyword", nkw)] }
-	switch verif.Choice("repo_shape", verif.Bound("repo_shapes", 4, 5)) {
+	switch verif.Choice("repo_shape", verif.Bound("repo_shapes", 4, 6)) {
 	case 0:
 		return string(verifRepoBytes(2))
 	case 1:
@@ -280,7 +280,7 @@ func VerifBuiltPathsParse() {
 	kind := verif.Choice("kind", verifNumKinds)
 	p := verifParts0(kind)
 	if verifHasRepo(kind) {
-		p.repo = verifRepo(verif.Bound("repo_keywords", 4, 5))
+		p.repo = verifRepo(verif.Bound("repo_keywords", 4, 8))
 	}
 	verifCheckBuilt(p, true)
 }
